@@ -85,6 +85,14 @@ def gen_cases(tier, seed):
                     cases.append({"id": cid, "sig": [wrs, was, waors, layout, 0, corr, "", "idp", "via:" + entry], "opts": [wrs, was, waors], "layout": layout, "enc": 0,
                                   "corr": corr, "maker": "idp", "how": "", "alg": "rsa-sha1", "entry": entry,
                                   "identity": gen.identity(random.Random("%s/%s" % (seed, cid)))})
+    # a signature that is present but is not the element's own (the mutation catalogue of C01's wrapping and signature families applied to
+    # the assertion of an A-signed message): it neither meets a requirement nor may it be ignored
+    n_wrap = 170 if tier == "quick" else 400          # (the catalogue has about 160 entries for this target: every one of them, in order)
+    for wi in range(n_wrap):
+        for opts in (((0, 1, 0), (0, 0, 1)) if tier == "quick" else ((0, 1, 0), (0, 0, 1), (1, 1, 0), (0, 1, 1))):      # (with nothing required an unsigned forged assertion is acceptable: not judged here)
+            cid = "o%d%d%d-A-plain-wrapped-%03d-kit" % (opts + (wi,))
+            cases.append({"id": cid, "sig": [opts[0], opts[1], opts[2], "A", 0, "wrapped", wi % 8, "kit"], "opts": list(opts), "layout": "A", "enc": 0, "corr": "wrapped",
+                          "maker": "kit", "how": "", "alg": "rsa-sha256", "wrap_index": wi, "identity": gen.identity(random.Random("%s/wrapped/%d" % (seed, wi)))})
     # the class of the configuration object the client is built from (SPConfig, plain Config, IdPConfig for an entity that is both)
     for cc in ("Config", "IdPConfig"):
         for wrs, was, waors in itertools.product((0, 1), repeat=3):
@@ -258,6 +266,8 @@ def expected_accept(case):
         return False          # no assertion the SP could have looked at
     if case.get("entry"):
         return ok and (case["corr"] == "valid" or case["layout"] == "none")
+    if case["corr"] == "wrapped":
+        return None           # never with the attacker's content; refusal is always right (judged in run_case)
     return ok and case["corr"] == "valid"
 
 
@@ -268,6 +278,13 @@ def run_case(case, ctx):
     if case.get("backend") and type(sp.sec.crypto).__name__ != "CryptoBackend" + case["backend"]:
         return {"outcome": "HARNESS-ERROR", "error": "the SP was not built with the %s backend but with %s" % (case["backend"], type(sp.sec.crypto).__name__)}
     xml, rid, aid = build_message(case, idp)
+    wrapped_name = None
+    if case["corr"] == "wrapped":
+        from vlib import xmlmut as xm
+        cat = [(n_, m_) for n_, f_, m_ in xm.mutants(xml, xk.SAML, "Assertion", families=("xsw", "sig", "ref", "id")) if m_ is not None]
+        if not cat:
+            return {"outcome": "HARNESS-ERROR", "error": "no wrapping mutant could be built"}
+        wrapped_name, xml = cat[case["wrap_index"] % len(cat)]
     ctx.mark()
     if case.get("entry"):
         from saml2_tophat import BINDING_SOAP
@@ -292,6 +309,17 @@ def run_case(case, ctx):
     ok_ids = set(e.get("node_id") for e in oks)
     excname = type(exc).__name__ if exc is not None else ("None-returned" if resp is None else "")
     outcome = "accept" if accepted else "reject:" + excname
+    if case["corr"] == "wrapped":
+        from vlib import xmlmut as xm
+        ident_ = fed.identity_of(resp) if accepted else {}
+        evil = accepted and (xm.EVIL_VALUE in repr(ident_.get("ava")) or xm.EVIL_NAMEID in repr(ident_.get("name_id")))
+        if evil:
+            viol.append({"key": "C02/signature-of-another-element-met-or-waived-the-requirement", "what": "cell %s mutant %s: accepted with the attacker's content %r" % (
+                case["sig"], wrapped_name, ident_.get("ava"))})
+        return {"outcome": outcome + ":" + (wrapped_name or "").split(":")[0], "nontrivial": True, "violations": viol,
+                "counters": {"wrapped_cells": 1, "accepted": int(accepted), "rejected_sigver": int(not accepted), "rejected_other": 0,
+                             "verify_ok_events": len(oks), "verify_events": len([e for e in evs if e.get("cmd") == "verify"]), "decrypt_events": 0},
+                "obs": {"mutant": wrapped_name}}
     if accepted != want:
         key = "false-accept" if accepted else "false-reject"
         if accepted and case.get("mdkeys") and case["layout"] != "none":
